@@ -166,6 +166,11 @@ class LCAONLDFGenerator:
             assert orb_rho_out_iorb is None
             rho_out = rho_in
             orb_rho_out_iorb = orb_rho_in_iorb
+        # eval_rho_full and eval_occd_full (called below) overwrite the spin-0
+        # caches of the plan. Save them, so that a get_potential call that
+        # follows an earlier get_features call does not pick up data that
+        # belongs to the density passed to this function.
+        plan_cache = (self.plan._cached_p_i_qg[0], self.plan._cached_l1_data[0])
         # set up arrays
         ngrids_ato = self.grids_indexer.ngrids
         idx_map = self.grids_indexer.idx_map
@@ -218,6 +223,7 @@ class LCAONLDFGenerator:
                 apply_transformation=False,
             )
             occd_feats.append(occd_feat)
+        self.plan._cached_p_i_qg[0], self.plan._cached_l1_data[0] = plan_cache
         return feat, None if len(occd_feats) == 0 else np.stack(occd_feats)
 
     def get_potential(self, vfeat, spin=0, map_grids=True, grad_mode=False):
